@@ -178,7 +178,11 @@ fn part(tier: Tier) -> Part {
     let shapes = match shapes(tier) {
         Ok(s) => s,
         Err(e) => {
-            p.machinery.push(e);
+            if e.contains("died") {
+                p.fail(format!("[other] sending/receiving one 4-packet message killed the process ({})", e), json!({"probe": "sizes"}));
+            } else {
+                p.machinery.push(e);
+            }
             return p;
         },
     };
